@@ -3,7 +3,7 @@
 from common_props import COMMON_TRUSTED
 
 CFG = {
-    "engines": [["relayfwd", 90, 400], ["relaydiff", 600, 4000], ["relayappend", 40, 300], ["relaygap", 40, 400]],
+    "engines": [["relayfwd", 90, 400], ["relaydiff", 600, 4000], ["relayappend", 40, 300], ["relaygap", 40, 400], ["relayslow", 48, 600]],
     "rule": "relayfwd/lazyreq (12 per scenario): call req first-frame payloads built from the protocol layout (service 0..255 bytes, 0..25 "
             "transport headers incl. duplicates of as/cn/rd/rk, ttl {0,1,..,2^32-1}, all checksum type bytes, arg sizes up to multi-frame, "
             "frame limits 700..65519) plus truncations, bit flips, random bytes, out-of-range checksum types, through the real "
@@ -37,7 +37,20 @@ CFG = {
             "Failed/End callbacks, live items, tombstones compared with the interleaving model Model/RelayGap.v; oracle: the caller's "
             "frames are a prefix of the destination's and a conforming reassembly never completes with bytes missing) and a REAL client "
             "(raw.Call with a 1.2 s deadline, sub relaygapcall: exact response or error, never success with missing bytes, never "
-            "blocked past the deadline; checksum none and crc32). Every case counts as non-trivial; distinct by input.",
+            "blocked past the deadline; checksum none and crc32). Every case counts as non-trivial; distinct by input. "
+            "relayslow (clauses b/c, which id an error / clean-up path uses): real client - real relay - two real servers; the relay's "
+            "connection to the server 'slow' goes through a Dialer-wrapped net.Conn whose Write parks; SendBufferSize 2-6; the parked "
+            "writer plus pings fill the queue up to 0..SendBufferSize free slots; the id counters of the caller's connection and of the "
+            "stalled connection are shifted apart by 0-39 each (Connection.NextMessageID) and lined up as collide (a healthy in-flight "
+            "call V of the same caller, held by its handler, has the id the relay allocates for M on the stalled connection: half of the "
+            "cases), apart (M's destination id is neither V's nor M's id) or lock-step (M's id = its destination id); M is forwarded as "
+            "is, re-fragmented into 1-4 frames because the relay host appends 1-3 pairs of 60000 bytes, and/or followed by 1-2 "
+            "continuation frames of the client (arg3 70000 / 140000 bytes), so that frame number free+1 -- the first frame, a "
+            "re-fragmented frame, a continuation frame -- is the one that does not fit. Oracle from the statement: M ends with the "
+            "relay's relay-dest-conn-slow error (ErrCodeUnexpected) within 3/4 of its 2.5 s deadline, V is still in flight then and "
+            "afterwards gets exactly its destination's response, exactly `free` frames of M were queued; the relay host's Failed/End "
+            "callbacks, the error code per caller id and the queued frames are compared with Model/RelayErrId.v run_relayslow (the relay "
+            "bookkeeping model); a failing case is re-run twice in a fresh world and counts only 3 out of 3.",
     "trusted_base": COMMON_TRUSTED + [
         "modelled by hand (tied by correspondence on every run): newLazyCallReq, lazyCallReq.arg2/arg3/Service/Span/SetTTL, Relayer.Relay/"
         "handleCallReq/handleNonCallReq/Receive/addRelayItem/finishRelayItem/failRelayItem/timeoutRelayItem, relayItems Get/Add/Delete/Entomb "
@@ -50,6 +63,15 @@ CFG = {
         "lookup and the first reporting statement), relayNonCallGate (Relayer.handleNonCallReq, same region), relayFailItem (Relayer.failRelayItem "
         "after its lookup); hints: item.tomb/finished/stopped/ok are parameters, logging and verifPoint statements dropped, marker lets for "
         "Entomb/SendSystemError/Failed/End/decrementPending",
+        "regenerated from source by go2v on every run (Gen/GenRelayIdSites.v, go2v/relayidsites.go; relay*.go non-test files): "
+        "relay_id_args (every uint32 argument of every call of a package function / method / func-typed field, with its resolved text: "
+        "header read before/after a header-id assignment in the same function by source position, local variables resolved to their "
+        "defining expression, parameters, fields, NextMessageID), relay_id_stores (stores into uint32 struct fields incl. FrameHeader.ID, "
+        "relayItem.remapID, relayFragmentSender.origID, relayTimer.id), relay_frame_args (frames handed on, before/after the rewrite), "
+        "relay_fail_sites, relay_syserr_sites, relay_fragsender_lit, relay_funcval_sites; the @pre/@post marking is by source position "
+        "(no control-flow analysis: the relay functions rewrite a header in straight-line code), Model/RelayIdSites.v interprets the "
+        "texts (receiver prefixes r./items./remoteConn.relay./item.destination./rfs., the two func-value aliases trigger and "
+        "failRelayItemFunc) and rejects any text it does not understand",
         "Model/RelayItems.v (interleaving model of the relay bookkeeping, shared with C09/C10, tied there by the relaysched engine) is "
         "tied for C08 by the generated gates, by the relaygap correspondence and by the statement oracle of relaygap",
         "Spec/RelaySpec.v (one-table transparent relay) and Spec/Protocol.v (layouts) written from the property text / protocol document",
@@ -65,6 +87,10 @@ CFG = {
         "pass in the window in which both relay timers of the call have fired but not yet run (the known C09/C10 timer race); the caller then "
         "gets the timeout error frame or runs into its own deadline, never a completed response; C08_no_frame_after_drop gives 'no response "
         "frame at all after the drop' for runs without relay-timer expiry",
+        "C08_relay_error_id / C08_relay_fail_key / C08_relay_timeout_id speak about WHICH id and item an error / failure uses in every "
+        "reachable state of fresh-id runs of Model/RelayItems.v; that the error frame is then actually written depends on the caller's "
+        "own send queue having room and the connection being open (C08_dest_slow_path gives the path step by step for one goroutine; "
+        "delivery under interleavings is C10's grammar theorem). Local handlers (RelayLocalHandlers, SendSystemError site 8) are outside the model",
         "not modelled in Model/RelayFwd.v (modelled in Model/RelayItems.v): a full send queue (relay-dest-conn-slow / relay-source-conn-slow); not modelled: connection state changes, RelayLocalHandlers, "
         "PropagateCancel=true is modelled but not exercised, call res frames with an empty payload (the code reads a byte beyond the sized payload)",
         "no 2^32 wrap of a connection's id counter within the lifetime of a call (hypothesis of C08_remap_injective/C08_fresh_id/C08_order; "
